@@ -31,6 +31,7 @@ pub fn framed(owning: bool, body: impl FnOnce(Imp, &mut Vec<Obs>) -> (Option<u64
     let mut obs = Vec::with_capacity(8);
     alloc::begin();
     let drops = DropScope::new();
+    instr::DcZst::reset();
     let (imp, log) = Imp::new(1);
     let id = imp.dc.id;
     let (state, back) = body(imp, &mut obs);
@@ -46,6 +47,18 @@ pub fn framed(owning: bool, body: impl FnOnce(Imp, &mut Vec<Obs>) -> (Option<u64
     }
     if problem.is_none() && drops.count(id) != 1 {
         problem = Some(("obj:drop_count".to_string(), format!("payload dropped {} time(s)", drops.count(id))));
+    }
+    // every counted value that crossed the boundary (results, success payloads of integer-coded results) is gone by
+    // now and was destroyed exactly once, zero-sized ones included
+    if problem.is_none() {
+        let bad = alloc::untracked(|| drops.not_equal(1));
+        if !bad.is_empty() {
+            problem = Some(("obj:value_drop_count".to_string(), alloc::untracked(|| format!("counted values {:?} that crossed the boundary were not destroyed exactly once: {:?}", bad, drops.counts()))));
+        }
+        let (made, gone) = instr::DcZst::stats();
+        if made != gone {
+            problem = Some(("obj:zst_drop_count".to_string(), alloc::untracked(|| format!("{} zero-sized counted value(s) were created and {} destroyed", made, gone))));
+        }
     }
     let logv = alloc::untracked(|| log.lock().unwrap().clone());
     drop(log);
